@@ -114,6 +114,7 @@ type Exec struct {
 	conc       *concState
 	cl         *closeState
 	lastDir    string
+	dirPrefix  string
 	aborted    bool // a foreign oracle failed in a way that makes the rest of the run meaningless
 }
 
@@ -174,7 +175,7 @@ var oraclesOf = map[string][]string{
 	// not covered by an issued DeleteRange is returned identical and bracketed by
 	// First/Last. (Atomicity of in-flight operations is C02/C04's statement.)
 	"C01": {"open-succeeds", "acked-entries-survive", "api-error"},
-	"C02": {"contiguous-readable", "content-equal", "bounds", "api-error"},
+	"C02": {"contiguous-readable", "content-equal", "bounds", "api-error", "no-resurrection"},
 	"C03": {"open-succeeds", "accepts-legal-ops", "model-accepts", "contiguous-readable", "content-equal", "bounds", "api-error", "no-deadlock", "bounded-progress", "close", "stable-get", "stable-map", "no-panic"},
 	"C04": {"open-succeeds", "contiguous-readable", "content-equal", "bounds", "api-error"},
 	"C05": {"open-succeeds", "accepts-legal-ops", "model-accepts", "contiguous-readable", "content-equal", "bounds", "api-error", "not-found-outside-range", "no-panic"},
@@ -459,6 +460,23 @@ func (ex *Exec) Run() (v *Violation, harnessErr string) {
 					pat += "+dirop-lost"
 				}
 				ex.sigParts = append(ex.sigParts, "tear:"+pat)
+				if TraceAll {
+					for _, n := range ex.disk.List() {
+						b := ex.disk.Lookup(n).Vol
+						end := len(b)
+						for end > 0 && b[end-1] == 0 {
+							end--
+						}
+						fmt.Printf("   disk after power loss: %s len=%d nonzero=%d\n", n, len(b), end)
+						for o := 0; o < end; o += 32 {
+							e := o + 32
+							if e > end {
+								e = end
+							}
+							fmt.Printf("     %04x: %x\n", o, b[o:e])
+						}
+					}
+				}
 			}
 			ex.or.Restart()
 			ex.gen++
@@ -555,7 +573,7 @@ func (ex *Exec) dir() string {
 	if ex.cfg.Meta == "bolt" {
 		return ex.boltDir
 	}
-	return fmt.Sprintf("/sim/w%d", ex.opens)
+	return fmt.Sprintf("/sim/%sw%d", ex.dirPrefix, ex.opens)
 }
 
 type testCodec struct {
@@ -821,6 +839,15 @@ func (ex *Exec) observeAndCheck(where string, durable, full bool) {
 		}
 	}
 	if d := ex.or.Check(o, durable); d != "" {
+		if g := ex.or.GhostExplains(o); g != nil {
+			ex.probes.Add("resurrected_unacked_batch", 1)
+			if ex.on("no-resurrection") {
+				ex.violate("no-resurrection", "rolled-back-unacked-batch-resurrected", "%s: %v, a batch that was in flight at an earlier crash and absent after that crash's recovery, is present again (built from its stale bytes); observed [%d,%d]", where, *g, o.First, o.Last)
+			} else {
+				ex.aborted = true
+			}
+			return
+		}
 		oracle, class := ex.classifyMismatch(o, durable)
 		ex.violate(oracle, class, "%s: %s", where, d)
 		return
